@@ -27,6 +27,7 @@ type c16Call struct {
 	Alias   bool `json:"alias,omitempty"`
 	Gate    bool `json:"gate,omitempty"`
 	Slow    bool `json:"slow,omitempty"`   // blocked in a reverse call when the cut happens
+	Retry   bool `json:"retry,omitempty"`  // the reverse calls go through retry-tagged fields of the reverse client struct
 	Notify  bool `json:"notify,omitempty"` // the forward call is a notification (its handler still makes the reverse calls)
 	Burst   int  `json:"burst,omitempty"`  // concurrent reverse calls with 1 MiB arguments into a client whose link is stalled, then cut
 }
@@ -97,7 +98,7 @@ func runC16(c c16Case) (*Violation, string) {
 		if cc.Notify && c.Mode == "ws" {
 			kind = "notify"
 		}
-		ps = append(ps, rig.Go(cl, kind, tok, Plan{Gate: cc.Gate, Reverse: cc.Reverse, RevAlias: cc.Alias, RevSlow: cc.Slow}))
+		ps = append(ps, rig.Go(cl, kind, tok, Plan{Gate: cc.Gate, Reverse: cc.Reverse, RevAlias: cc.Alias, RevSlow: cc.Slow, RevRetry: cc.Retry}))
 	}
 	// gated calls make their reverse calls only after all forward calls are pending (nesting under concurrency)
 	for i, cc := range c.Calls {
@@ -243,6 +244,9 @@ func c16NT(c c16Case) (bool, []string) {
 		}
 		if cc.Slow {
 			cl = append(cl, "slow_reverse")
+			if cc.Retry {
+				cl = append(cl, "retry_tagged_reverse_call_at_loss")
+			}
 		}
 		if cc.Burst > 0 {
 			cl = append(cl, "burst_into_stalled_link")
@@ -257,13 +261,13 @@ func c16NT(c c16Case) (bool, []string) {
 	return c.Clients >= 2 || c.Cut != nil, cl
 }
 
-const c16Rule = "1-5 clients connected at once, each with a reverse handler returning its own identity; 1-8 concurrent forward calls, each making 0-3 reverse calls while pending, optionally one through a field tagged rpc_method that resolves via a client-side handler alias together with one into a second client-side handler registered under another namespace (the two WithClientHandler options come in either order), optionally one into a client-side handler that blocks; link of one client cut (FIN/RST) at a drawn frame and byte position of the reverse exchange; modes {ws, http, server without WithReverseClient}. Non-trivial = >=2 clients connected, or a link cut; distinct by descriptor hash"
+const c16Rule = "1-5 clients connected at once, each with a reverse handler returning its own identity; 1-8 concurrent forward calls, each making 0-3 reverse calls while pending, optionally one through a field tagged rpc_method that resolves via a client-side handler alias together with one into a second client-side handler registered under another namespace (the two WithClientHandler options come in either order), optionally one into a client-side handler that blocks, optionally all of them through retry-tagged fields of the reverse client struct; link of one client cut (FIN/RST) at a drawn frame and byte position of the reverse exchange; modes {ws, http, server without WithReverseClient}. Non-trivial = >=2 clients connected, or a link cut; distinct by descriptor hash"
 
 func TestC16(t *testing.T) {
 	rec := NewRec("C16", c16Rule)
 	defer rec.Finish(t)
 	rec.EnableJournal()
-	rec.RequireClass("forward_notification", "burst_into_stalled_link", "mode_ws", "mode_http", "mode_nooption", "clients_3", "alias_and_tag", "slow_reverse", "link_cut", "several_reverse_calls")
+	rec.RequireClass("retry_tagged_reverse_call_at_loss", "forward_notification", "burst_into_stalled_link", "mode_ws", "mode_http", "mode_nooption", "clients_3", "alias_and_tag", "slow_reverse", "link_cut", "several_reverse_calls")
 	run := func(ft failer, c c16Case) {
 		nt, cl := c16NT(c)
 		rec.Run(ft, c, nt, cl, func() *Violation {
@@ -307,6 +311,9 @@ func TestC16(t *testing.T) {
 			}
 			run(t, c16Case{Mode: "ws", Clients: 2, Calls: []c16Call{{Client: 0, Slow: true}, {Client: 1, Reverse: 1}, {Client: 0, Slow: true, Reverse: 1}},
 				Cut: &Fault{Conn: 0, Dir: "s2c", Frame: 99, Pos: "before", Kind: kind}})
+			// the same through retry-tagged fields of the reverse client: nothing to retry against once the client is gone
+			run(t, c16Case{Mode: "ws", Clients: 2, Calls: []c16Call{{Client: 0, Slow: true, Retry: true}, {Client: 1, Reverse: 2, Retry: true}, {Client: 0, Slow: true, Reverse: 1, Retry: true}},
+				Cut: &Fault{Conn: 0, Dir: "s2c", Frame: 99, Pos: "before", Kind: kind}})
 		}
 	})
 	rec.Rapid(t, "rapid", func(rt *rapid.T) {
@@ -315,7 +322,7 @@ func TestC16(t *testing.T) {
 		cut := c.Mode == "ws" && rapid.IntRange(0, 2).Draw(rt, "cut") == 0
 		for i := 0; i < n; i++ {
 			l := fmt.Sprintf("c%d_", i)
-			cc := c16Call{Client: rapid.IntRange(0, c.Clients-1).Draw(rt, l+"client"), Reverse: rapid.IntRange(0, 3).Draw(rt, l+"rev"), Alias: rapid.Bool().Draw(rt, l+"alias"), Gate: rapid.Bool().Draw(rt, l+"gate"), Notify: rapid.IntRange(0, 3).Draw(rt, l+"notify") == 0}
+			cc := c16Call{Client: rapid.IntRange(0, c.Clients-1).Draw(rt, l+"client"), Reverse: rapid.IntRange(0, 3).Draw(rt, l+"rev"), Alias: rapid.Bool().Draw(rt, l+"alias"), Gate: rapid.Bool().Draw(rt, l+"gate"), Notify: rapid.IntRange(0, 3).Draw(rt, l+"notify") == 0, Retry: rapid.IntRange(0, 2).Draw(rt, l+"retry") == 0}
 			if cut && c.Mode == "ws" {
 				cc.Slow = rapid.IntRange(0, 3).Draw(rt, l+"slow") == 0
 			}
